@@ -193,6 +193,20 @@ impl Prop for C03 {
                 cases.push((format!("+c@{off}:{kind:?}:{st:?}"), input));
             }
         }
+        if default_cfg {
+            // two comments around one separator: `elem /* a */ , // b`
+            for (off, kind, _nk) in &pos {
+                if *kind != PosKind::AfterElem {
+                    continue;
+                }
+                if let Some((off2, _, _)) = pos.iter().find(|(o, k, _)| *k == PosKind::AfterSep && *o > *off && *o <= *off + 3) {
+                    let input = gen::insert_comments(&u.text, &[(*off, CStyle::BlockInline), (*off2, CStyle::LineEol)]);
+                    cases.push((format!("+c@{off}:blk+c@{off2}:eol"), input));
+                    let input = gen::insert_comments(&u.text, &[(*off, CStyle::BlockInline), (*off2, CStyle::BlockInline)]);
+                    cases.push((format!("+c@{off}:blk+c@{off2}:blk"), input));
+                }
+            }
+        }
         if thorough && default_cfg {
             // pairs of comments at element boundaries
             let b: Vec<_> = pos.iter().filter(|p| p.1 != PosKind::Inside).collect();
